@@ -62,7 +62,7 @@ CURVES = {-7: 'p256', -35: 'p384'}
 ALTERATION_KINDS = ['pri-flags', 'pri-dest', 'pri-src', 'pri-rpt', 'pri-time', 'pri-seq', 'pri-lifetime', 'pri-crc-type',
                     'tgt-data', 'tgt-flags', 'tgt-type', 'tgt-num', 'tgt-crc-type', 'other-data', 'other-flags',
                     'sec-flags', 'sec-source', 'sec-scope', 'sec-addl-protected', 'res-tag', 'res-protected', 'res-kid',
-                    'wrong-key', 'no-key', 'bitflip', 'x5chain-flip', 'sec-scope-retype', 'sec-scope-drop', 'sig-malleate', 'res-drop', 'res-none', 'res-attach']
+                    'wrong-key', 'no-key', 'bitflip', 'x5chain-flip', 'sec-scope-retype', 'sec-scope-drop', 'sig-malleate', 'res-drop', 'res-none', 'res-attach', 'sec-source-form']
 
 
 @st.composite
